@@ -27,4 +27,6 @@ VARIANTS = [
     V('benign-stm-copies', F, ("self.TM = TM\n        self.TMtoTAA()", "self.TM = np.array(TM, dtype=float)\n        self.TMtoTAA()"), 'silent'),
     V('copy-constructor-shares-matrix', F, ("self.TM = initializer_array.TM.copy()", "self.TM = initializer_array.TM"), 'fire', 'R03.5'),
     V('benign-copy-constructor-np-copy', F, ("self.TM = initializer_array.TM.copy()", "self.TM = np.array(initializer_array.TM)"), 'silent'),
+    V('copy-shares-matrix-buffer', 'basic_robotics/general/faser_transform.py', ('        copy.TM = np.copy(self.TM)\n        copy.TAA = np.copy(self.TAA)\n', '        copy.TM = np.asarray(self.TM, dtype=float)\n        copy.TAA = np.array(self.TAA, dtype=float).reshape((6, 1))\n'), 'fire', 'R03.5'),
+    V('benign-copy-through-array-constructor', 'basic_robotics/general/faser_transform.py', ('        copy.TM = np.copy(self.TM)\n        copy.TAA = np.copy(self.TAA)\n', '        copy.TM = np.array(self.TM, dtype=float)\n        copy.TAA = np.array(self.TAA, dtype=float).reshape((6, 1))\n'), 'silent'),
 ]
